@@ -191,7 +191,12 @@ def run_semantic(res, sources, opts=None, count=30, extra_case=None, label="prog
         obs_names = list(v.get("obs") or [])
         proved = bool(pnames) and all(o in pnames for o in obs_names)
         info["proved"] = proved
-        cells = mt.get("cells") or []
+        rings = {x["mem"]: x for x in (mt.get("rings") or [])}
+        cells = (mt.get("cells") or []) + [x for x in (mt.get("loop_cells") or []) if not (rings.get(x["mem"]) or {}).get("proved")]
+        have = {x["mem"] for x in cells}
+        cells += [x for x in rings.values() if x["mem"] not in have]
+        stats["proved_rings"] += sum(1 for x in rings.values() if x.get("proved"))
+        info["ring_latencies"] = {str(x["mem"]): x.get("latency") for x in rings.values() if x.get("proved")}
         stats["cells"] += mt.get("n_mems", 0)
         stats["proved_cells"] += sum(1 for x in cells if x.get("proved"))
         info["proved_cells"] = sum(1 for x in cells if x.get("proved"))
@@ -215,6 +220,12 @@ def run_semantic(res, sources, opts=None, count=30, extra_case=None, label="prog
         for x in its:
             if x.get("latency") is not None:
                 stats[f"latency={x['latency']}"] += 1
+        for x in bad_it:
+            rl = (info.get("ring_latencies") or {}).get(str(x.get("cell")))
+            if rl is not None and rl <= (c.get("maxL") or 12):
+                # theorem Facto.ring_end_to_end gives value(t+L) = f(value(t)) at every tick; the simulation denies it
+                res.violation({"reason": "FRAMEWORK INCONSISTENCY: ring_end_to_end applies (latency %d) but the simulated trace has no such latency" % rl,
+                               "source": c["source"], "iterate": x})
         if hms or bad_it:
             unexplained = []
             for hm in hms:
